@@ -25,6 +25,7 @@ fn main() {
     match args[0].as_str() {
         "backoff" => backoff::main(&args[1..]),
         "topic" => topic::main(&args[1..]),
+        "topicsweep" => topic::main_sweep(&args[1..]),
         "transforms" => transforms::main(&args[1..]),
         "c03" => net_c03::main(&args[1..]),
         "c04" => net_c04::main(&args[1..]),
